@@ -7,38 +7,103 @@ structure Inv (s : St) : Prop where
   stream : s.accepted ++ s.sendBuf = s.queued
   once : s.closeEvents = (if s.closed then 1 else 0)
   quiet : s.offeredAfterClose = 0
+  /-- every shutdown-for-writing happened when the socket had taken everything queued until then -/
+  drained : ∀ e ∈ s.shutLog, e.1 = e.2
+  /-- the socket is shut down for writing at most once -/
+  shutOnce : s.shutLog.length ≤ 1
+  pendReq : s.pendSinceReq = true → s.shutReq = true
+  /-- a requested shutdown that had to wait for data is carried out as soon as the buffer is drained -/
+  happens : s.shutReq = true → s.pendSinceReq = true → s.sendBuf = [] → s.closed = false → s.shutLog ≠ []
+
+theorem eff_accept {s : St} {o : Outcome} {k : Nat} (h : s.eff o = .accept k) : s.shutLog = [] := by
+  unfold St.eff at h
+  split at h
+  · rename_i he; simpa using he
+  · cases h
+
+/-- `_do_send`'s write on a live worker with a non-empty buffer -/
+theorem writeBuf_inv (s : St) (o : Outcome) (h : Inv s) (hc : s.closed = false) (hb : s.sendBuf ≠ []) :
+    Inv (writeBuf s o) := by
+  obtain ⟨hs, ho, hq, hd, h1, hp, hh⟩ := h
+  unfold writeBuf
+  simp only []
+  cases he : s.offer.eff o with
+  | again =>
+    simp only []
+    exact ⟨hs, ho, by simp [St.offer, hc, hq], hd, h1, hp, hh⟩
+  | fatal =>
+    simp only []
+    refine ⟨hs, by simp [St.fail, St.offer, hc, ho], by simp [St.fail, St.offer, hc, hq], hd, h1, hp, ?_⟩
+    intro _ _ _ hcl; simp [St.fail] at hcl
+  | accept k =>
+    simp only []
+    have hl0 : s.shutLog = [] := eff_accept (s := s.offer) he
+    split
+    · exact ⟨hs, ho, by simp [St.offer, hc, hq], hd, h1, hp, hh⟩
+    · rename_i hk
+      have hk' : s.offer.sendBuf = s.sendBuf := rfl
+      rw [hk']
+      generalize min k s.sendBuf.length = m at hk
+      unfold St.took St.afterWrite
+      have hstream : s.accepted ++ List.take m s.sendBuf ++ List.drop m s.sendBuf = s.queued := by
+        rw [List.append_assoc, List.take_append_drop]; exact hs
+      split
+      · rename_i hsh
+        obtain ⟨hreq, hemp⟩ := hsh
+        have hemp' : List.drop m s.sendBuf = [] := List.length_eq_zero_iff.mp hemp
+        refine ⟨hstream, ho, by simp [St.offer, hc, hq], ?_, ?_, hp, ?_⟩
+        · intro e hmem
+          have : e = (s.accepted ++ List.take m s.sendBuf, s.queued) := by
+            simpa [St.offer, hl0] using hmem
+          subst this
+          show s.accepted ++ List.take m s.sendBuf = s.queued
+          rw [← hstream]
+          show _ = s.accepted ++ List.take m s.sendBuf ++ List.drop m s.sendBuf
+          rw [hemp']; simp
+        · simp [St.offer, hl0]
+        · intro _ _ _ _; simp [St.offer]
+      · rename_i hsh
+        refine ⟨hstream, ho, by simp [St.offer, hc, hq], hd, h1, hp, ?_⟩
+        intro hreq _ hemp _
+        exfalso; apply hsh
+        exact ⟨hreq, by
+          have : List.drop m s.sendBuf = [] := hemp
+          simp [St.offer, this]⟩
 
 theorem doSend_inv (s : St) (o : Outcome) (h : Inv s) : Inv (doSend s o) := by
-  obtain ⟨hs, ho, hq⟩ := h
   unfold doSend
   by_cases hc : s.closed
-  · simp only [hc, if_true]; exact ⟨hs, ho, hq⟩
+  · simp only [hc, if_true]; exact h
   · by_cases h0 : s.sendBuf.length = 0
-    · simp only [hc, h0, if_true, Bool.false_eq_true, if_false]; exact ⟨hs, ho, hq⟩
-    · have hc' : s.closed = false := by simpa using hc
-      cases o with
-      | again => constructor <;> simp_all
-      | fatal => constructor <;> simp_all
-      | accept k =>
-        by_cases hk : min k s.sendBuf.length = 0
-        · constructor <;> simp_all
-        · refine ⟨?_, by simp_all, by simp_all⟩
-          simp only [hc, h0, hk, Bool.false_eq_true, if_false]
-          show s.accepted ++ List.take _ s.sendBuf ++ List.drop _ s.sendBuf = s.queued
-          rw [List.append_assoc, List.take_append_drop]; exact hs
+    · simp only [hc, h0, if_true, Bool.false_eq_true, if_false]; exact h
+    · simp only [hc, h0, Bool.false_eq_true, if_false]
+      exact writeBuf_inv s o h (by simpa using hc) (by intro hb; apply h0; simp [hb])
 
 theorem doRecv_inv (s : St) (rx : Rx) (h : Inv s) : Inv (doRecv s rx) := by
-  obtain ⟨hs, ho, hq⟩ := h
+  obtain ⟨hs, ho, hq, hd, h1, hp, hh⟩ := h
   cases rx <;> simp only [doRecv]
-  · exact ⟨hs, ho, hq⟩
+  · exact ⟨hs, ho, hq, hd, h1, hp, hh⟩
   all_goals
     by_cases hc : s.closed
-    · simp only [hc, if_true]; exact ⟨hs, ho, hq⟩
+    · simp only [hc, if_true]; exact ⟨hs, ho, hq, hd, h1, hp, hh⟩
     · have hc' : s.closed = false := by simpa using hc
-      constructor <;> simp_all
+      simp only [hc, Bool.false_eq_true, if_false]
+      refine ⟨hs, by simp [ho, hc'], hq, hd, h1, hp, ?_⟩
+      intro _ _ _ hcl; simp at hcl
 
 theorem doRecv_guard (s : St) (rx : Rx) : (doRecv s rx).guardClosed = s.guardClosed := by
   cases rx <;> simp only [doRecv] <;> (try rfl) <;> (split <;> rfl)
+
+theorem afterWrite_guard (s : St) : s.afterWrite.guardClosed = s.guardClosed := by
+  unfold St.afterWrite; split <;> rfl
+
+theorem writeBuf_guard (s : St) (o : Outcome) : (writeBuf s o).guardClosed = s.guardClosed := by
+  unfold writeBuf
+  simp only []
+  cases s.offer.eff o <;> simp only [] <;> (try rfl)
+  split
+  · rfl
+  · unfold St.took; rw [afterWrite_guard]; rfl
 
 theorem doSend_guard (s : St) (o : Outcome) : (doSend s o).guardClosed = s.guardClosed := by
   unfold doSend
@@ -46,71 +111,121 @@ theorem doSend_guard (s : St) (o : Outcome) : (doSend s o).guardClosed = s.guard
   · rfl
   · split
     · rfl
-    · cases o <;> simp only [] <;> (try rfl)
-      split <;> rfl
+    · exact writeBuf_guard s o
 
 theorem doSendRaw_guard (s : St) (o : Outcome) : (doSendRaw s o).guardClosed = s.guardClosed := by
   unfold doSendRaw
   split
   · rfl
-  · cases o <;> simp only [] <;> (try rfl)
-    split <;> rfl
+  · exact writeBuf_guard s o
 
-theorem step_guard (s : St) (op : Op) : (step s op).guardClosed = s.guardClosed := by
+theorem step0_guard (s : St) (op : Op) : (step0 s op).guardClosed = s.guardClosed := by
   cases op with
+  | shutdown => rfl
   | send d => rfl
   | pump o => exact doSend_guard s o
   | sendFast d o =>
-    simp only [step]
+    simp only [step0]
     split
-    · cases o <;> simp only [] <;> (try rfl)
+    · cases s.offer.eff o <;> simp only [] <;> (try rfl)
       split <;> rfl
     · rfl
   | pumpRW rx o =>
-    simp only [step]
+    simp only [step0]
     split
     · rfl
     · split
       · rw [doSend_guard, doRecv_guard]
       · rw [doSendRaw_guard, doRecv_guard]
 
-theorem step_inv (s : St) (op : Op) (h : Inv s) (hg : s.guardClosed = true) : Inv (step s op) := by
+theorem step_guard (s : St) (op : Op) : (step s op).guardClosed = s.guardClosed := by
+  unfold step; exact step0_guard s op
+
+theorem step0_inv (s : St) (op : Op) (h : Inv s) (hg : s.guardClosed = true) : Inv (step0 s op) := by
   cases op with
-  | send d => exact ⟨by simp [step, ← h.stream, List.append_assoc], h.once, h.quiet⟩
+  | shutdown =>
+    obtain ⟨hs, ho, hq, hd, h1, hp, hh⟩ := h
+    refine ⟨hs, ho, hq, hd, h1, fun _ => rfl, ?_⟩
+    intro _ hpend hemp hcl
+    exact hh (hp hpend) hpend hemp hcl
+  | send d =>
+    obtain ⟨hs, ho, hq, hd, h1, hp, hh⟩ := h
+    refine ⟨by simp [step0, ← hs, List.append_assoc], ho, hq, hd, h1, hp, ?_⟩
+    intro hreq hpend hemp hcl
+    have hemp' : s.sendBuf ++ d = [] := hemp
+    have : s.sendBuf = [] := (List.append_eq_nil_iff.mp hemp').1
+    exact hh hreq hpend this hcl
   | pump o => exact doSend_inv s o h
   | pumpRW rx o =>
-    simp only [step]
+    simp only [step0]
     by_cases hc : s.closed
     · simp only [hc, if_true]; exact h
     · simp only [hc, hg, if_true, Bool.false_eq_true, if_false]
       exact doSend_inv _ o (doRecv_inv s rx h)
   | sendFast d o =>
-    obtain ⟨hs, ho, hq⟩ := h
-    unfold step
+    obtain ⟨hs, ho, hq, hd, h1, hp, hh⟩ := h
+    unfold step0
     by_cases hg : s.sendBuf.length = 0 ∧ ¬ s.closed
     · obtain ⟨h0, hc⟩ := hg
       have hb : s.sendBuf = [] := List.length_eq_zero_iff.mp h0
       have hqq : s.accepted = s.queued := by rw [hb] at hs; simpa using hs
       have hc' : s.closed = false := by simpa using hc
-      cases o with
-      | again => constructor <;> simp_all
-      | fatal => constructor <;> simp_all
+      simp only [h0, hc', Bool.false_eq_true, not_false_eq_true, and_self, if_true]
+      cases s.offer.eff o with
+      | again =>
+        simp only []
+        refine ⟨by simp [St.offer, ← hs, List.append_assoc], ho, by simp [St.offer, hc', hq], hd, h1, hp, ?_⟩
+        intro hreq hpend hemp hcl
+        have hemp' : s.sendBuf ++ d = [] := hemp
+        exact hh hreq hpend (List.append_eq_nil_iff.mp hemp').1 hcl
+      | fatal =>
+        simp only []
+        refine ⟨hs, by simp [St.offer, ho, hc'], by simp [St.offer, hc', hq], hd, h1, hp, ?_⟩
+        intro _ _ _ hcl; simp at hcl
       | accept k =>
+        simp only []
         by_cases hk : min k d.length = d.length
-        · constructor <;> simp_all
-        · refine ⟨?_, by simp_all, by simp_all⟩
-          simp only [h0, hc', hk, Bool.false_eq_true, not_false_eq_true, and_self, if_true, if_false]
-          show s.accepted ++ List.take _ d ++ List.drop _ d = s.queued ++ d
-          rw [List.append_assoc, List.take_append_drop, hqq]
+        · simp only [hk, if_true]
+          refine ⟨by simp [St.offer, hb, hqq], ho, by simp [St.offer, hc', hq], hd, h1, hp, ?_⟩
+          intro hreq hpend _ hcl
+          exact hh hreq hpend hb hcl
+        · simp only [hk, if_false]
+          refine ⟨?_, ho, by simp [St.offer, hc', hq], hd, h1, hp, ?_⟩
+          · show s.accepted ++ List.take _ d ++ List.drop _ d = s.queued ++ d
+            rw [List.append_assoc, List.take_append_drop, hqq]
+          · intro _ _ hemp _
+            exfalso
+            have hemp' : List.drop (min k d.length) d = [] := hemp
+            have := List.drop_eq_nil_iff.mp hemp'
+            omega
     · simp only [hg, if_false]
-      exact ⟨by simp [← hs, List.append_assoc], ho, hq⟩
+      refine ⟨by simp [← hs, List.append_assoc], ho, hq, hd, h1, hp, ?_⟩
+      intro hreq hpend hemp hcl
+      have hemp' : s.sendBuf ++ d = [] := hemp
+      exact hh hreq hpend (List.append_eq_nil_iff.mp hemp').1 hcl
+
+theorem step_inv (s : St) (op : Op) (h : Inv s) (hg : s.guardClosed = true) : Inv (step s op) := by
+  obtain ⟨hs, ho, hq, hd, h1, hp, hh⟩ := step0_inv s op h hg
+  unfold step
+  refine ⟨hs, ho, hq, hd, h1, ?_, ?_⟩
+  · intro hpend
+    have hpend' : ((step0 s op).pendSinceReq || ((step0 s op).shutReq && !(step0 s op).sendBuf.isEmpty)) = true := hpend
+    rcases Bool.or_eq_true_iff.mp hpend' with h' | h'
+    · exact hp h'
+    · exact (Bool.and_eq_true_iff.mp h').1
+  · intro hreq hpend hemp hcl
+    have hemp' : (step0 s op).sendBuf = [] := hemp
+    have hpend' : ((step0 s op).pendSinceReq || ((step0 s op).shutReq && !(step0 s op).sendBuf.isEmpty)) = true := hpend
+    rw [hemp'] at hpend'
+    have : (step0 s op).pendSinceReq = true := by simpa using hpend'
+    exact hh hreq this hemp' hcl
 
 theorem run_inv (ops : List Op) : Inv (run ops) := by
   have : ∀ (s : St), Inv s → s.guardClosed = true → Inv (ops.foldl step s) := by
     induction ops with
     | nil => intro s h _; exact h
     | cons o os ih => intro s h hg; exact ih _ (step_inv s o h hg) (by rw [step_guard]; exact hg)
-  exact this {} ⟨rfl, rfl, rfl⟩ rfl
+  exact this {} ⟨rfl, rfl, rfl, by simp, by simp, by simp, by simp⟩ rfl
 
 /-! ## Part B -/
 
